@@ -476,7 +476,8 @@ func (s *stdioTransport) processMessage(ctx context.Context, line string, writer
 	var rawMessage json.RawMessage
 	if err := json.Unmarshal([]byte(line), &rawMessage); err != nil {
 		s.logger.Errorf("Invalid JSON received: %v", err)
-		return nil
+		// Report unparsable input to the peer as a JSON-RPC parse error.
+		return s.writeResponse(newJSONRPCErrorResponse(nil, ErrCodeParse, "Parse error", nil), writer)
 	}
 
 	msgType, err := parseJSONRPCMessageType(rawMessage)
